@@ -38,11 +38,14 @@ struct Case {
     delivery: Vec<usize>,
     /// drain the ready queue after every delivery (else only at the end)
     drain_each: bool,
+    /// (position in `delivery`, store-call index): that store call of that `process` call fails;
+    /// the orderer hands the item back and it is processed again after the last delivery
+    fault: Option<(usize, usize)>,
 }
 
 impl Case {
     fn to_json(&self) -> Value {
-        json!({"part": "c11", "level": self.level, "n": self.n, "lists": self.lists, "delivery": self.delivery, "drain_each": self.drain_each,
+        json!({"part": "c11", "level": self.level, "n": self.n, "lists": self.lists, "delivery": self.delivery, "drain_each": self.drain_each, "fault": self.fault.map(|(a, b)| vec![a, b]),
                "legend": "lists[i] = dependency list of node i (9 = an item that never arrives)"})
     }
     fn from_json(v: &Value) -> Option<Case> {
@@ -61,6 +64,7 @@ impl Case {
                 .collect(),
             delivery: v.get("delivery")?.as_array()?.iter().map(|x| x.as_u64().unwrap_or(0) as usize).collect(),
             drain_each: v.get("drain_each")?.as_bool()?,
+            fault: v.get("fault").and_then(|f| f.as_array()).and_then(|a| Some((a.first()?.as_u64()? as usize, a.get(1)?.as_u64()? as usize))),
         })
     }
     fn describe(&self) -> String {
@@ -73,10 +77,14 @@ impl Case {
             .collect::<Vec<_>>()
             .join(" ");
         format!(
-            "level {}; graph {g}; delivery {:?}; drain {}",
+            "level {}; graph {g}; delivery {:?}; drain {}{}",
             self.level,
             self.delivery,
-            if self.drain_each { "after every delivery" } else { "at the end" }
+            if self.drain_each { "after every delivery" } else { "at the end" },
+            match self.fault {
+                Some((pos, k)) => format!("; store call #{k} of the process() call for delivery position {pos} fails, the item is processed again after the last delivery"),
+                None => String::new(),
+            }
         )
     }
     /// smaller = simpler reproduction
@@ -211,6 +219,8 @@ struct Part {
     dups: bool,
     /// enumerate both drain policies (else only "after every delivery")
     both_drains: bool,
+    /// also enumerate one failing store call inside one `process` call
+    faults: bool,
 }
 
 fn pick_case(ch: &Chooser, part: &Part) -> Case {
@@ -230,12 +240,21 @@ fn pick_case(ch: &Chooser, part: &Part) -> Case {
     let ds = deliveries(n, part.dups);
     let delivery = ds[ch.choose_free(ds.len(), "delivery")].clone();
     let drain_each = !part.both_drains || ch.choose_free(2, "drain") == 0;
+    let fault = if part.faults {
+        let pos = ch.choose_free(delivery.len(), "fault-position");
+        // process() makes at most a handful of store calls for graphs this small; an index beyond
+        // the last call means "no fault" for that case
+        Some((pos, ch.choose_free(8, "fault-call")))
+    } else {
+        None
+    };
     Case {
         level: part.level,
         n,
         lists,
         delivery,
         drain_each,
+        fault,
     }
 }
 
@@ -248,6 +267,8 @@ enum Ev {
     Deliver(usize),
     /// node index, or Err(raw id) for an id that is not one of the delivered nodes
     Release(Result<usize, String>),
+    /// `process` returned an error for this node (injected store fault) and handed the item back
+    ProcessFailed(usize),
     /// the ready queue was drained until the orderer reported "nothing ready"
     Quiescent,
 }
@@ -332,9 +353,38 @@ async fn run_processor_level(store: &SqliteStore, case: &Case) -> Result<Vec<Ev>
             }
         }
     };
-    for &i in &case.delivery {
+    let mut retry: Vec<usize> = vec![];
+    for (pos, &i) in case.delivery.iter().enumerate() {
+        let inject = case.fault.filter(|(p, _)| *p == pos).map(|(_, k)| k);
+        if let Some(k) = inject {
+            ctl.fail_idx.set(0);
+            ctl.fail_at.set(Some(k));
+            ctl.failed_call.set(None);
+            ctl.fail_armed.set(true);
+        }
+        let r = ord.process(items[i].clone()).await;
+        ctl.fail_armed.set(false);
+        ctl.fail_at.set(None);
+        match r {
+            Ok(()) => evs.push(Ev::Deliver(i)),
+            Err((back, e)) => {
+                if inject.is_none() || ctl.failed_call.get().is_none() {
+                    return Err(format!("Orderer::process failed: {e}"));
+                }
+                if back.is_none() {
+                    return Err("Orderer::process failed without handing the item back".into());
+                }
+                evs.push(Ev::ProcessFailed(i));
+                retry.push(i);
+            }
+        }
+        if case.drain_each {
+            drain(&mut evs).await?;
+        }
+    }
+    for i in retry {
         if let Err((_, e)) = ord.process(items[i].clone()).await {
-            return Err(format!("Orderer::process failed: {e}"));
+            return Err(format!("Orderer::process failed on the retry: {e}"));
         }
         evs.push(Ev::Deliver(i));
         if case.drain_each {
@@ -472,6 +522,7 @@ fn judge_events(case: &Case, evs: &[Ev]) -> Judged {
                 }
                 real.insert(*y);
             }
+            Ev::ProcessFailed(_) => {}
             Ev::Quiescent => {
                 close(lists, &delivered, &mut model);
                 out.states.push((delivered.clone(), real.clone()));
@@ -553,7 +604,8 @@ pub fn run(mut rep: Report) -> i32 {
     }
 
     use Alphabet::*;
-    let p = |name, level, n_min, n_max, alpha, dups, both_drains| Part { name, level, n_min, n_max, alpha, dups, both_drains };
+    let p = |name, level, n_min, n_max, alpha, dups, both_drains| Part { name, level, n_min, n_max, alpha, dups, both_drains, faults: false };
+    let pf = |name, level, n_min, n_max, alpha, dups, both_drains| Part { name, level, n_min, n_max, alpha, dups, both_drains, faults: true };
     // (part, wall budget in seconds)
     let parts: Vec<(Part, u64)> = if thorough {
         vec![
@@ -562,12 +614,14 @@ pub fn run(mut rep: Report) -> i32 {
             (p("inner n=4, set lists, permutations + re-deliveries, drain after every delivery", "inner", 4, 4, Plain, true, false), 200),
             (p("processor n<=3, rich lists, permutations + re-deliveries, both drain policies", "processor", 1, 3, Rich, true, true), 120),
             (p("processor n=4, set lists, permutations, both drain policies", "processor", 4, 4, Plain, false, true), 40),
+            (pf("processor n<=3 with one failing store call in one process(), set lists, permutations + re-deliveries, both drain policies", "processor", 2, 3, Plain, true, true), 120),
         ]
     } else {
         vec![
             (p("inner n<=3, lists with appended repeats, permutations + re-deliveries, both drain policies", "inner", 1, 3, Medium, true, true), 90),
             (p("processor n<=2, rich lists, permutations + re-deliveries, both drain policies", "processor", 1, 2, Rich, true, true), 30),
             (p("processor n=3, lists with appended repeats, permutations, drain after every delivery", "processor", 3, 3, Medium, false, false), 45),
+            (pf("processor n<=3 with one failing store call in one process(), set lists, permutations, drain after every delivery", "processor", 2, 3, Plain, false, false), 45),
         ]
     };
     let mut by_level: BTreeMap<&'static str, u64> = BTreeMap::new();
